@@ -84,6 +84,8 @@ def run(res, tier):
     from msa import reach as R
     R.rec_rule(res, fx, cg, entries, reach, 'R-REC', anchor_files=ANCHOR_FILES, side_nesting=True)
     R.crash_rule(res, fx, cg, entries, reach, 'R-CRASH', taint_entry=False)
+    from . import sm_state
+    sm_state.regex_valid_rule(res, fx)       # a client-supplied pattern that fails to compile must leave the matcher unusable-but-safe, not crash the server
     res.extra['loops_seen'] = nloops
     res.extra['entries'] = ENTRIES
     res.explanation = ('Static decision of the structural part of C07 on the current /repo sources: (1) PROGRESS — for each of the %d distinct source loops '
